@@ -1,7 +1,451 @@
 package main
 
-import "fmt"
+// Compiled part of C15 (thorough tier): generate valid Docs → thriftgo -g go:with_reflection (built from the
+// repo under test) → ONE go build of a scratch module holding every generated package plus the driver
+// (drvmain.go.txt + shared.go + a generated registry.go) → walk from every generated Go type to its descriptor
+// and back, dump file descriptors obtained at run time, look names up across files in the default registry;
+// compared with the model (same op lines as in-process, registry = what BuildFileDescriptor registered) and,
+// for the oracle, with the Doc.
+
+import (
+	"bufio"
+	_ "embed"
+	"encoding/json"
+	"fmt"
+	"io"
+	"os"
+	"os/exec"
+	"path/filepath"
+	"regexp"
+	"strconv"
+	"strings"
+
+	"github.com/cloudwego/thriftgo/parser"
+	"github.com/cloudwego/thriftgo/semantic"
+
+	"verifharness/internal/vl"
+)
+
+//go:embed drvmain.go.txt
+var drvMain string
+
+//go:embed shared.go
+var sharedSrc string
+
+type cunit struct {
+	doc     *Doc
+	idx     int
+	ok      bool
+	note    string
+	files   []cfile // per Doc file
+	linked  bool
+	pkgPath []string
+}
+
+type cfile struct {
+	goFile  string // generated *-reflection.go, relative to mod
+	getter  string // GetFileDescriptorForX
+	pkg     string // import path
+	alias   string
+	types   [][3]string // kind-comment, GoName, IDL name
+	rawDesc []byte
+}
+
+func goCmd(dir string, args ...string) *exec.Cmd {
+	c := exec.Command("go", args...)
+	c.Dir = dir
+	c.Env = append(os.Environ(), "GOFLAGS=-mod=mod", "GOPROXY=off", "GOSUMDB=off", "GOTOOLCHAIN=local", "CGO_ENABLED=0")
+	return c
+}
+
+var typeLineRe = regexp.MustCompile(`\(\*([A-Za-z0-9_]+)\)\(nil\),\s*// (Struct|Union|Exception|Enum) \d+: [A-Za-z0-9_]+\.([A-Za-z0-9_]+)`)
+var getterRe = regexp.MustCompile(`func (GetFileDescriptorFor[A-Za-z0-9_]+)\(`)
+var rawRe = regexp.MustCompile(`(?s)_rawDesc = \[\]byte\{(.*?)\}`)
 
 func compiled(repo, dir string, seed uint64, tier string) error {
-	return fmt.Errorf("compiled tier not built yet")
+	dir, _ = filepath.Abs(dir)
+	out := vl.NewOut(dir)
+	defer out.Close()
+	r := vl.NewRng(seed*7919 + 15)
+	n := 8
+	if tier == "thorough" {
+		n = 16
+	}
+	repo, _ = filepath.Abs(repo)
+	work := filepath.Join(dir, "w")
+	idl := filepath.Join(work, "idl")
+	mod := filepath.Join(work, "mod")
+	os.MkdirAll(idl, 0o755)
+	os.MkdirAll(filepath.Join(mod, "driver"), 0o755)
+	tg := filepath.Join(work, "thriftgo")
+	if b, err := goCmd(repo, "build", "-o", tg, ".").CombinedOutput(); err != nil {
+		return fmt.Errorf("cannot build thriftgo from %s: %v\n%s", repo, err, b)
+	}
+	gomod := "module batch\n\ngo 1.20\n\nrequire github.com/apache/thrift v0.13.0\nrequire github.com/cloudwego/gopkg v0.2.0\nrequire github.com/cloudwego/thriftgo v0.0.0\n\nreplace github.com/cloudwego/thriftgo => " + repo + "\n"
+	os.WriteFile(filepath.Join(mod, "go.mod"), []byte(gomod), 0o644)
+	if sum, err := os.ReadFile(filepath.Join(repo, "go.sum")); err == nil {
+		os.WriteFile(filepath.Join(mod, "go.sum"), sum, 0o644)
+	}
+	// ---- generate
+	units := make([]*cunit, n)
+	for i := 0; i < n; i++ {
+		d := genDoc(r, genCfg{forceGoNS: true, compileSafe: true})
+		for _, f := range d.Files {
+			f.Path = fmt.Sprintf("u%d/%s", i, f.Path)
+		}
+		u := &cunit{doc: d, idx: i}
+		units[i] = u
+		for p, text := range d.Render() {
+			os.MkdirAll(filepath.Dir(filepath.Join(idl, p)), 0o755)
+			os.WriteFile(filepath.Join(idl, p), []byte(text), 0o644)
+		}
+		c := exec.Command(tg, "-r", "-g", fmt.Sprintf("go:with_reflection,package_prefix=batch/u%d", i), "-o", filepath.Join(mod, fmt.Sprintf("u%d", i)), d.Files[0].Path)
+		c.Dir = idl
+		b, err := c.CombinedOutput()
+		if err != nil {
+			u.note = "thriftgo: " + clip(string(b))
+			out.Count("unit:rejected-by-thriftgo")
+			continue
+		}
+		u.ok = true
+	}
+	// ---- discover the generated reflection files
+	for _, u := range units {
+		if !u.ok {
+			continue
+		}
+		u.files = make([]cfile, len(u.doc.Files))
+		root := filepath.Join(mod, fmt.Sprintf("u%d", u.idx))
+		var refl []string
+		filepath.Walk(root, func(p string, info os.FileInfo, err error) error {
+			if err == nil && strings.HasSuffix(p, "-reflection.go") {
+				refl = append(refl, p)
+			}
+			return nil
+		})
+		for fi, f := range u.doc.Files {
+			ns := ""
+			for _, x := range f.NS {
+				if x.Lang == "go" {
+					ns = x.Name
+					break
+				}
+			}
+			want := filepath.Join(root, strings.ReplaceAll(ns, ".", "/"), prefixOf(f.Path)+"-reflection.go")
+			found := false
+			for _, p := range refl {
+				if p == want {
+					found = true
+				}
+			}
+			if !found {
+				continue // not reachable from main (not generated)
+			}
+			src, _ := os.ReadFile(want)
+			cf := cfile{goFile: want, pkg: fmt.Sprintf("batch/u%d/%s", u.idx, strings.ReplaceAll(ns, ".", "/")), alias: fmt.Sprintf("u%df%d", u.idx, fi)}
+			if m := getterRe.FindSubmatch(src); m != nil {
+				cf.getter = string(m[1])
+			}
+			for _, m := range typeLineRe.FindAllSubmatch(src, -1) {
+				cf.types = append(cf.types, [3]string{string(m[2]), string(m[1]), string(m[3])})
+			}
+			if m := rawRe.FindSubmatch(src); m != nil {
+				for _, t := range strings.FieldsFunc(string(m[1]), func(r rune) bool { return r == ',' || r == ' ' || r == '\n' || r == '\t' }) {
+					v, err := strconv.ParseUint(t, 0, 8)
+					if err != nil {
+						return fmt.Errorf("%s: byte literal %q", want, t)
+					}
+					cf.rawDesc = append(cf.rawDesc, byte(v))
+				}
+			}
+			u.files[fi] = cf
+		}
+	}
+	// ---- registry.go + one go build (units that do not compile are dropped and counted)
+	os.WriteFile(filepath.Join(mod, "driver", "main.go"), []byte(drvMain), 0o644)
+	os.WriteFile(filepath.Join(mod, "driver", "shared.go"), []byte(sharedSrc), 0o644)
+	include := map[int]bool{}
+	for _, u := range units {
+		if u.ok {
+			include[u.idx] = true
+		}
+	}
+	bin := filepath.Join(work, "driver.bin")
+	built := false
+	var lastOut string
+	for round := 0; round < 6 && !built; round++ {
+		os.WriteFile(filepath.Join(mod, "driver", "registry.go"), []byte(registrySrc(units, include)), 0o644)
+		b, err := goCmd(mod, "build", "-o", bin, "./driver").CombinedOutput()
+		lastOut = string(b)
+		if err == nil {
+			built = true
+			break
+		}
+		dropped := false
+		re := regexp.MustCompile(`(?:^|[\s/])u(\d+)/`)
+		for _, ln := range strings.Split(lastOut, "\n") {
+			if m := re.FindStringSubmatch(ln); m != nil {
+				k, _ := strconv.Atoi(m[1])
+				if include[k] {
+					delete(include, k)
+					units[k].note = "go build: " + clip(ln)
+					out.Count("unit:does-not-compile")
+					dropped = true
+				}
+			}
+		}
+		if !dropped {
+			return fmt.Errorf("go build of the driver failed and no unit is to blame:\n%s", lastOut)
+		}
+	}
+	if !built {
+		return fmt.Errorf("go build of the driver failed:\n%s", lastOut)
+	}
+	for _, u := range units {
+		if u.note != "" {
+			out.Sample(map[string]interface{}{"unit": u.idx, "skipped": u.note})
+		}
+	}
+	// ---- run the driver interactively
+	drv := exec.Command(bin)
+	stdin, _ := drv.StdinPipe()
+	stdout, _ := drv.StdoutPipe()
+	drv.Stderr = os.Stderr
+	if err := drv.Start(); err != nil {
+		return err
+	}
+	rd := bufio.NewReaderSize(stdout, 1<<20)
+	ask := func(q string) []string {
+		io.WriteString(stdin, q+"\n")
+		ln, err := rd.ReadString('\n')
+		if err != nil {
+			panic(fmt.Errorf("driver died on %q: %v", q, err))
+		}
+		return strings.Split(strings.TrimRight(ln, "\n"), "\t")
+	}
+	defer func() { stdin.Close(); drv.Wait() }()
+
+	for _, u := range units {
+		if !include[u.idx] {
+			continue
+		}
+		out.Count("unit:linked")
+		d := u.doc
+		docStats(out, d, genCfg{})
+		root, perr := parser.ParseBatchString(d.Files[0].Path, d.Render(), nil)
+		if perr != nil {
+			return perr
+		}
+		// the AST as the generator (Scope.MarshalDescriptor) sees it: after thriftgo's semantic pass
+		if _, err := semantic.NewChecker(semantic.Options{FixWarnings: true}).CheckAll(root); err != nil {
+			return fmt.Errorf("unit %d accepted by thriftgo but rejected by the in-process checker: %v", u.idx, err)
+		}
+		if err := semantic.ResolveSymbols(root); err != nil {
+			return fmt.Errorf("unit %d accepted by thriftgo but rejected by the in-process resolver: %v", u.idx, err)
+		}
+		byPath := map[string]*parser.Thrift{}
+		var walk func(a *parser.Thrift)
+		walk = func(a *parser.Thrift) {
+			if a == nil || byPath[a.Filename] != nil {
+				return
+			}
+			byPath[a.Filename] = a
+			for _, inc := range a.Includes {
+				walk(inc.Reference)
+			}
+		}
+		walk(root)
+		idxOf := map[string]int{}
+		for i, f := range d.Files {
+			idxOf[f.Path] = i
+		}
+		fail := func(f ofail) {
+			report(out, d, f, "C15/compiled/"+f.class+"/"+d.Text())
+		}
+		dumps := map[int]string{}
+		reach := func(i int) bool { return byPath[d.Files[i].Path] != nil && u.files[i].getter != "" }
+		var paths []string
+		for i, f := range d.Files {
+			if !reach(i) {
+				continue
+			}
+			paths = append(paths, vl.Hex(f.Path))
+			dump, err := astDump(byPath[f.Path])
+			if err != nil {
+				return err
+			}
+			dumps[i] = dump
+			key := fmt.Sprintf("u%d/%d", u.idx, i)
+			// the descriptor obtained at run time from the generated package vs describe(IDL)
+			gdAns := ask("GD " + vl.Hex(f.Path))
+			out.Case("D "+dump, gdAns[0], true)
+			// … vs the Doc, fact by fact
+			var got facts
+			if err := json.Unmarshal([]byte(ask("FF "+key)[0]), &got); err != nil {
+				return fmt.Errorf("driver FF: %v", err)
+			}
+			for _, of := range diffFacts(d.FactsMode(i, true), got) {
+				of.what = f.Path + " (compiled): " + of.what
+				fail(of)
+			}
+			if pk := ask("PK " + key)[0]; pk != u.files[i].pkg {
+				fail(ofail{"gopkgpath", f.Path + ": Go package path recorded for the descriptor", u.files[i].pkg, pk})
+			}
+			// the embedded bytes vs the model's encoding, and decoded by the model vs decoded by the program
+			raw, err := gunzip(u.files[i].rawDesc)
+			if err != nil {
+				fail(ofail{"embedded-bytes", f.Path + ": gunzip of the embedded descriptor", "ok", err.Error()})
+				continue
+			}
+			c, err := canonBytes(raw)
+			if err != nil {
+				fail(ofail{"embedded-bytes", f.Path + ": embedded descriptor bytes", "well-formed", err.Error()})
+				continue
+			}
+			out.Case("M "+dump, "ok "+vl.Hex(string(c)), true)
+			out.Case("U "+vl.Hex(string(raw)), gdAns[0], true)
+		}
+		// registry of the unit, then lookups through the default registry
+		out.Case("P", "ok", false)
+		for i, f := range d.Files {
+			if !reach(i) {
+				continue
+			}
+			a := byPath[f.Path]
+			op := fmt.Sprintf("A %d %d", i, len(a.Includes))
+			for _, inc := range a.Includes {
+				op += " " + strconv.Itoa(idxOf[inc.Reference.Filename])
+			}
+			out.Case(op+" "+dumps[i], "ok", false)
+		}
+		out.Case("GC 0", ask("RC " + strings.Join(paths, " "))[0], true)
+		// every generated Go type → its descriptor → back
+		for i, f := range d.Files {
+			if !reach(i) {
+				continue
+			}
+			key := fmt.Sprintf("u%d/%d", u.idx, i)
+			cnt := map[byte]int{}
+			for ti, t := range kindsOf(d, i, u.files[i].types) {
+				ans := ask(fmt.Sprintf("GT %s %d", key, ti))
+				k := cnt[t.kind]
+				cnt[t.kind]++
+				out.Case(fmt.Sprintf("L %c %s %s", t.kind, vl.Hex(f.Path), vl.Hex(t.name)), ans[0], true)
+				out.Count("gotype:" + string(t.kind))
+				want := fmt.Sprintf("%s|%c|%d", f.Path, t.kind, k)
+				if fj, k0, ok := expectDef(d, i, t.kind, t.name); !ok || fj != i || k0 != k {
+					continue
+				}
+				if len(ans) < 3 || ans[1] != want {
+					fail(ofail{"gotype", fmt.Sprintf("Go type %s of %s → descriptor", t.goName, f.Path), want, strings.Join(ans[1:], " ")})
+					continue
+				}
+				flags := ans[2]
+				if t.kind == 't' {
+					if !strings.Contains(flags, "back=1") {
+						out.Count("gotype:typedef-alias-shares-go-type")
+					}
+					flags = strings.Replace(flags, "back=0", "back=1", 1)
+				}
+				if flags != "back=1 gotype=1 td=1" {
+					fail(ofail{"gotype", fmt.Sprintf("Go type %s of %s ↔ descriptor", t.goName, f.Path), "back=1 gotype=1 td=1", flags})
+				}
+			}
+		}
+		var tdks []tdKey
+		for i := range d.Files {
+			if !reach(i) {
+				continue
+			}
+			for _, t := range strings.Fields(ask(fmt.Sprintf("TK u%d/%d", u.idx, i))[0]) {
+				p := strings.Split(t, ",")
+				tdks = append(tdks, tdKey{vl.UnHex(p[0]), vl.UnHex(p[1]), p[2] == "1"})
+			}
+		}
+		ex := func(op string) (string, string) {
+			a := ask(op)
+			if len(a) < 2 {
+				return a[0], ""
+			}
+			return a[0], a[1]
+		}
+		for _, f := range evalLookups(d, reach, ex, tdks, false, out, r) {
+			fail(f)
+		}
+	}
+	return nil
+}
+
+type ktype struct {
+	kind   byte
+	goName string
+	name   string
+}
+
+// kindsOf classifies the entries of the generated type list: the template lists Structs, Unions, Exceptions,
+// Enums and then Typedefs (commented "Enum" too).
+func kindsOf(d *Doc, fi int, ts [][3]string) []ktype {
+	var out []ktype
+	nEnum := len(d.Files[fi].Enums)
+	seenEnum := 0
+	for _, t := range ts {
+		k := byte('s')
+		switch t[0] {
+		case "Union":
+			k = 'u'
+		case "Exception":
+			k = 'x'
+		case "Enum":
+			if seenEnum < nEnum {
+				k = 'e'
+			} else {
+				k = 't'
+			}
+			seenEnum++
+		}
+		out = append(out, ktype{k, t[1], t[2]})
+	}
+	return out
+}
+
+func registrySrc(units []*cunit, include map[int]bool) string {
+	var sb strings.Builder
+	sb.WriteString("package main\n\nimport (\n\ttr \"github.com/cloudwego/thriftgo/thrift_reflection\"\n")
+	for _, u := range units {
+		if !include[u.idx] {
+			continue
+		}
+		for _, f := range u.files {
+			if f.getter != "" {
+				fmt.Fprintf(&sb, "\t%s %q\n", f.alias, f.pkg)
+			}
+		}
+	}
+	sb.WriteString(")\n\nvar _ = tr.NewTypeDescriptor\n\nvar files = []fileEntry{\n")
+	for _, u := range units {
+		if !include[u.idx] {
+			continue
+		}
+		for fi, f := range u.files {
+			if f.getter == "" {
+				continue
+			}
+			fmt.Fprintf(&sb, "\t{key: \"u%d/%d\", path: %q, fd: %s.%s, types: []typeEntry{\n", u.idx, fi, u.doc.Files[fi].Path, f.alias, f.getter)
+			for _, t := range kindsOf(u.doc, fi, f.types) {
+				switch t.kind {
+				case 's', 'u', 'x':
+					fmt.Fprintf(&sb, "\t\t{kind: '%c', name: %q, ptr: (*%s.%s)(nil), desc: func() interface{} { return new(%s.%s).GetDescriptor() }, tdesc: func() *tr.TypeDescriptor { return new(%s.%s).GetTypeDescriptor() }},\n",
+						t.kind, t.name, f.alias, t.goName, f.alias, t.goName, f.alias, t.goName)
+				case 'e':
+					fmt.Fprintf(&sb, "\t\t{kind: 'e', name: %q, ptr: (*%s.%s)(nil), desc: func() interface{} { return %s.%s(0).GetDescriptor() }, tdesc: func() *tr.TypeDescriptor { return new(%s.%s).GetTypeDescriptor() }},\n",
+						t.name, f.alias, t.goName, f.alias, t.goName, f.alias, t.goName)
+				default:
+					fmt.Fprintf(&sb, "\t\t{kind: 't', name: %q, ptr: (*%s.%s)(nil)},\n", t.name, f.alias, t.goName)
+				}
+			}
+			sb.WriteString("\t}},\n")
+		}
+	}
+	sb.WriteString("}\n")
+	return sb.String()
 }
